@@ -1481,7 +1481,8 @@ def metamorphic_streams(rng, tier):
     n = 25 if tier == "quick" else 250
     out = []
     for _ in range(n):
-        B = rng.choice([2, 2, 3, 4])
+        # mostly small batches; some at and around 8..12 (folding a batch into a shared operand may take another path there)
+        B = rng.choice([2, 2, 3, 4, 2, 3, 2, 3, 9, 12])
         pattern = rng.choice([[True, False], [True, True], [False, True], [True, False, False]])
         build, leaves = _meta_program(rng, B, pattern)
         out.append((B, build, leaves))
